@@ -410,11 +410,16 @@ Print Assumptions C11_join_premises_satisfiable.
 
 (* relation between the two models, PARTIAL: with zero Join operations the Join-specific state of PromiseJoin.v is
    inert (no promise pending join or joined, no mu held at a section boundary, no thread in a Join section): each
-   promise runs the single-promise protocol on its own fields.  A full simulation on the projected observables is not
+   promise runs the single-promise protocol on its own fields, and the precondition of Join holds vacuously, so every
+   chain theorem above applies to each promise on its own.  A full simulation on the projected observables is not
    proved; the two models are additionally tied through the implementation (seq vs join 1 / par 1 histories). *)
 Theorem C11_join_zero_joins_inert_partial : forall v np ops c, Forall no_join_op ops -> jreach v np ops c ->
   (forall k, p_next (getp c k) = None /\ p_joined (getp c k) = CNil /\ p_mu (getp c k) = None) /\
-  (forall t th, nth_error (jthreads c) t = Some th -> jjoin_pc (j_pc th) = false).
-Proof. exact join_zero_joins_inert. Qed.
+  (forall t th, nth_error (jthreads c) t = Some th -> jjoin_pc (j_pc th) = false) /\
+  join_ordered ops.
+Proof.
+  intros v np ops c Hn Hr. destruct (join_zero_joins_inert v np ops c Hn Hr) as [A B].
+  split; [exact A|]. split; [exact B|exact (no_join_ordered ops Hn)].
+Qed.
 Print Assumptions C11_join_zero_joins_inert_partial.
 
